@@ -369,7 +369,10 @@ package argmapper
 //@   ensures  [inputs-lifted-1] imp(result1 == nil && numIn(dyntype(f)) >= 1 && forall(i, int, imp(0 <= i && i < numIn(dyntype(f)), !isMarkerStruct(inType(dyntype(f), i)))), liftedL1(result0.input, methodval("reflect.(Type).In", dyntype(f)), numIn(dyntype(f))))
 //@   ensures  [inputs-lifted-2] imp(result1 == nil && numIn(dyntype(f)) >= 1 && forall(i, int, imp(0 <= i && i < numIn(dyntype(f)), !isMarkerStruct(inType(dyntype(f), i)))), liftedL2(result0.input, methodval("reflect.(Type).In", dyntype(f)), numIn(dyntype(f))))
 //@   ensures  [inputs-struct] imp(result1 == nil && numIn(dyntype(f)) == 1 && isMarkerStruct(inType(dyntype(f), 0)), vsP1(result0.input, baseType(inType(dyntype(f), 0)), numField(baseType(inType(dyntype(f), 0)))) && vsP3(result0.input, baseType(inType(dyntype(f), 0)), numField(baseType(inType(dyntype(f), 0)))) && result0.input.structPointers == ptrDepth(inType(dyntype(f), 0)) && !result0.input.isLifted)
-//@   after "outTyp, err := newValueSet" assert [inputs-survive-1] imp(numIn(ft) >= 1 && forall(i, int, imp(0 <= i && i < numIn(ft), !isMarkerStruct(inType(ft, i)))), allocated(inTyp) && allocated(inTyp.values) && forall(i, int, imp(0 <= i && i < numIn(ft), allocated(inTyp.values[i]))))
+//@   after "outTyp, err := newValueSet" assert [sv-a] allocated(inTyp) && inTyp != nil
+//@   after "outTyp, err := newValueSet" assert [sv-b] imp(numIn(ft) >= 1 && forall(i, int, imp(0 <= i && i < numIn(ft), !isMarkerStruct(inType(ft, i)))), len(inTyp.values) == numIn(ft))
+//@   after "outTyp, err := newValueSet" assert [sv-c] imp(numIn(ft) >= 1 && forall(i, int, imp(0 <= i && i < numIn(ft), !isMarkerStruct(inType(ft, i)))), allocated(inTyp.values))
+//@   after "outTyp, err := newValueSet" assert [sv-d] imp(numIn(ft) >= 1 && forall(i, int, imp(0 <= i && i < numIn(ft), !isMarkerStruct(inType(ft, i)))), forall(i, int, imp(0 <= i && i < numIn(ft), allocated(inTyp.values[i]) && inTyp.values[i] != nil)))
 //@   after "outTyp, err := newValueSet" assert [inputs-survive-2] imp(numIn(ft) >= 1 && forall(i, int, imp(0 <= i && i < numIn(ft), !isMarkerStruct(inType(ft, i)))), liftedL1(inTyp, methodval("reflect.(Type).In", ft), numIn(ft)))
 //@   ensures  [mixed-marker-rejected] imp(numIn(dyntype(f)) > 1 && exists(i, int, 0 <= i && i < numIn(dyntype(f)) && isMarkerStruct(inType(dyntype(f), i))) && f != nil && kindof(dyntype(f)) == 19, result1 != nil)
 //@   ensures  [double-pointer-rejected] imp(f != nil && kindof(dyntype(f)) == 19 && numIn(dyntype(f)) == 1 && isMarkerStruct(inType(dyntype(f), 0)) && ptrDepth(inType(dyntype(f), 0)) > 1, result1 != nil)
